@@ -376,6 +376,10 @@ def main():
             changed.append("Generated/FilterSkeleton.lean")
     except ImportError:
         pass
+    import gen_cache_skeleton  # C16 memoised functions / immutability of the shared expression objects
+
+    if write_if_changed(OUT / "CacheSkeleton.lean", gen_cache_skeleton.generate(REPO)):
+        changed.append("Generated/CacheSkeleton.lean")
     for c in changed:
         print("regenerated", c)
 
